@@ -62,8 +62,8 @@ def gen(rng, force=None, dyadic=None, max_segments=10):
         sthr = rng.choice([0.125, 0.5, 2.0, 4.0, 8.0, 64.0])
         jthr = rng.choice([0.125, 0.5, 2.0, 5.0, 8.0, 64.0])
     else:
-        sthr = rng.choice([0.5, 2.0, 4.0, 8.0, round(rng.uniform(0.2, 12), 3)])
-        jthr = rng.choice([0.5, 2.0, 5.0, 8.0, round(rng.uniform(0.2, 12), 3)])
+        sthr = rng.choice([0.5, 2.0, 4.0, 8.0, round(rng.uniform(0.2, 12), 3), 2.5, 3.5, 5.0, 7.0, 10.0])
+        jthr = rng.choice([0.5, 2.0, 5.0, 8.0, round(rng.uniform(0.2, 12), 3), 2.5, 3.5, 7.0, 10.0])
     J = jthr * sh
 
     def q(v):
